@@ -183,6 +183,25 @@ def gen_cases(rng, tier, info):
         for s in fam:
             h.cmds.append("(select %s)" % enc_sel(s))
         cases.append(Case("family-%d" % j, h.cmds))
+    # dots are legal in table and column names: result columns are always table + "." + column, whatever the names contain
+    for j in range(3):
+        h = G.History(rng, j)
+        h.add_table("Item", [mk("Id", "i16", pk=True), mk("Owner.Id", "i16", null=True)])
+        h.add_table("Owner", [mk("Id", "i16", pk=True), mk("Name", ("str", 8), null=True)])
+        h.insert("Item", rows=[[1, 10], [2, 20], [3, None]])
+        h.insert("Owner", rows=[[10, "ann"], [20, "bob"], [30, "cy"]])
+        if j == 1:
+            h.reopen()
+        h.obs()
+        I, O = T("Item"), T("Owner")
+        for kind in ("inner", "left"):
+            on = eq(col("Item.Owner.Id"), col("Owner.Id"))
+            h.cmds.append("(select %s)" % enc_sel(("sel", (kind, I, O, on), [], None)))
+            h.cmds.append("(select %s)" % enc_sel(("sel", (kind, I, O, on), ["Item.Owner.Id", "Owner.Name", "Item.Id"], None)))
+            h.cmds.append("(select %s)" % enc_sel(("sel", (kind, O, I, eq(col("Owner.Id"), col("Item.Owner.Id"))), ["Owner.Id", "Item.Owner.Id"], None)))
+            h.cmds.append("(select %s)" % enc_sel(("sel", (kind, I, O, eq(col("Owner.Id"), col("Item.Id"))), [], eq(col("Item.Owner.Id"), ("lit", 10)))))
+        h.cmds.append("(select %s)" % enc_sel(("sel", ("t", "Item"), ["Owner.Id"], None)))
+        cases.append(Case("dotted-%d" % j, h.cmds))
     n_rand = 60 if tier == "quick" else 1500
     for j in range(n_rand):
         a, b = contents(rng)
